@@ -1,5 +1,229 @@
-#[allow(dead_code)] mod verif_kani {}
-#[allow(dead_code)] mod verif_kani_tmp {
-    #[kani::proof] fn tmp_fail() { let a: u8 = kani::any(); let b: u8 = kani::any(); kani::cover!(a == 7); assert!(a / 2 + b / 2 < 200, "my msg"); let _ = a + b; }
-    #[kani::proof] fn tmp_ok() { let a: u8 = kani::any(); assert!(a as u16 + 1 > 0); }
+// Kani harnesses for datafusion/common/src/stats.rs (property C29: a statistic
+// reported as Exact is exact).  Included by the cfg(kani) hook.
+#[allow(unused_qualifications, unused_imports, dead_code, clippy::all)]
+mod verif_kani {
+    use super::*;
+
+    fn any_prec() -> Precision<usize> {
+        let v: usize = kani::any();
+        match kani::any::<u8>() % 3 {
+            0 => Precision::Exact(v),
+            1 => Precision::Inexact(v),
+            _ => Precision::Absent,
+        }
+    }
+    fn is_absent(p: &Precision<usize>) -> bool { matches!(p, Precision::Absent) }
+
+    /// strongest postcondition shared by add / sub / multiply, `f` = the exact
+    /// mathematical operation (None when not representable), `sat` = saturated value
+    fn check_arith(a: &Precision<usize>, b: &Precision<usize>, r: &Precision<usize>,
+                   exact: Option<usize>, sat: usize) {
+        match (a, b) {
+            (Precision::Absent, _) | (_, Precision::Absent) =>
+                assert!(is_absent(r), "C29.arith.absent_absorbs"),
+            (Precision::Exact(_), Precision::Exact(_)) => match exact {
+                Some(v) => assert!(*r == Precision::Exact(v), "C29.arith.exact_inputs_give_exact_math_result"),
+                None => assert!(*r == Precision::Inexact(sat), "C29.arith.unrepresentable_result_is_inexact"),
+            },
+            _ => assert!(*r == Precision::Inexact(sat), "C29.arith.inexact_input_gives_inexact"),
+        }
+        // the property itself: Exact(v) only if both inputs exact and v is the true value
+        if let Precision::Exact(v) = r {
+            assert!(matches!((a, b), (Precision::Exact(_), Precision::Exact(_))) && exact == Some(*v),
+                    "C29.arith.reported_exact_is_exact");
+        }
+    }
+    fn vals(a: &Precision<usize>, b: &Precision<usize>) -> (usize, usize) {
+        (a.get_value().copied().unwrap_or(0), b.get_value().copied().unwrap_or(0))
+    }
+
+    #[kani::proof]
+    fn c29_add() {
+        let (a, b) = (any_prec(), any_prec());
+        let r = a.add(&b);
+        let (x, y) = vals(&a, &b);
+        let m = x as u128 + y as u128;
+        let exact = if m <= usize::MAX as u128 { Some(m as usize) } else { None };
+        check_arith(&a, &b, &r, exact, if m <= usize::MAX as u128 { m as usize } else { usize::MAX });
+        kani::cover!(matches!(r, Precision::Exact(_)));
+        kani::cover!(exact.is_none() && matches!(r, Precision::Inexact(_)));
+    }
+
+    #[kani::proof]
+    fn c29_sub() {
+        let (a, b) = (any_prec(), any_prec());
+        let r = a.sub(&b);
+        let (x, y) = vals(&a, &b);
+        let exact = if x >= y { Some(x - y) } else { None };
+        check_arith(&a, &b, &r, exact, if x >= y { x - y } else { 0 });
+        kani::cover!(matches!(r, Precision::Exact(_)));
+        kani::cover!(exact.is_none() && matches!(r, Precision::Inexact(_)));
+    }
+
+    #[kani::proof]
+    fn c29_multiply() {
+        let (a, b) = (any_prec(), any_prec());
+        let r = a.multiply(&b);
+        let (x, y) = vals(&a, &b);
+        let m = x as u128 * y as u128;
+        let exact = if m <= usize::MAX as u128 { Some(m as usize) } else { None };
+        check_arith(&a, &b, &r, exact, if m <= usize::MAX as u128 { m as usize } else { usize::MAX });
+        kani::cover!(matches!(r, Precision::Exact(_)));
+        kani::cover!(exact.is_none() && matches!(r, Precision::Inexact(_)));
+    }
+
+    #[kani::proof]
+    fn c29_min_max_to_inexact() {
+        let (a, b) = (any_prec(), any_prec());
+        let (x, y) = vals(&a, &b);
+        let mx = a.max(&b);
+        let mn = a.min(&b);
+        let (hi, lo) = if x >= y { (x, y) } else { (y, x) };
+        match (&a, &b) {
+            (Precision::Absent, _) | (_, Precision::Absent) => {
+                assert!(is_absent(&mx) && is_absent(&mn), "C29.minmax.absent_absorbs");
+            }
+            (Precision::Exact(_), Precision::Exact(_)) => {
+                assert!(mx == Precision::Exact(hi), "C29.max.exact");
+                assert!(mn == Precision::Exact(lo), "C29.min.exact");
+            }
+            _ => {
+                assert!(mx == Precision::Inexact(hi), "C29.max.inexact");
+                assert!(mn == Precision::Inexact(lo), "C29.min.inexact");
+            }
+        }
+        // to_inexact never returns Exact and keeps the value
+        let t = a.clone().to_inexact();
+        assert!(!matches!(t, Precision::Exact(_)), "C29.to_inexact.never_exact");
+        assert!(t.get_value() == a.get_value(), "C29.to_inexact.keeps_value");
+        assert!(is_absent(&t) == is_absent(&a), "C29.to_inexact.keeps_absent");
+        // is_exact / get_value agree with the variant
+        assert!(a.is_exact() == match a { Precision::Exact(_) => Some(true), Precision::Inexact(_) => Some(false), _ => None },
+                "C29.is_exact");
+        kani::cover!(matches!(mx, Precision::Exact(_)));
+        kani::cover!(matches!(mn, Precision::Inexact(_)));
+    }
+
+    /// with_estimated_selectivity: only an exact zero stays exact.  The float
+    /// arithmetic is irrelevant to exactness, so selectivity is drawn from a
+    /// small set to keep symbolic f64 multiplication out of the formula.
+    #[kani::proof]
+    fn c29_selectivity() {
+        let a = any_prec();
+        let sel = match kani::any::<u8>() % 3 { 0 => 0.0f64, 1 => 0.5, _ => 1.0 };
+        let v0 = a.get_value().copied();
+        let was_exact_zero = a == Precision::Exact(0);
+        let absent = is_absent(&a);
+        let r = a.with_estimated_selectivity(sel);
+        if was_exact_zero {
+            assert!(r == Precision::Exact(0), "C29.selectivity.exact_zero_kept");
+        } else {
+            assert!(!matches!(r, Precision::Exact(_)), "C29.selectivity.anything_else_inexact");
+        }
+        assert!(is_absent(&r) == absent, "C29.selectivity.absent_kept");
+        if sel == 1.0 && !absent && v0.unwrap() < (1usize << 52) {
+            assert!(r.get_value().copied() == v0, "C29.selectivity.one_keeps_value");
+        }
+        kani::cover!(was_exact_zero);
+        kani::cover!(matches!(r, Precision::Inexact(_)));
+    }
+
+    // ------------------------------------------------------------------
+    // Statistics::with_fetch: row-count exactness after LIMIT/OFFSET.
+    // Column statistics: 0..=1 columns (bounded in column count only); byte sizes
+    // Absent so that the f64 ratio scaling is sliced away.
+    // ------------------------------------------------------------------
+    fn stub_format(_a: std::fmt::Arguments<'_>) -> String { String::new() }
+
+    fn check_with_fetch(ncols: usize) {
+        let nr = any_prec();
+        let fetch: Option<usize> = if kani::any() { Some(kani::any()) } else { None };
+        let skip: usize = kani::any();
+        let n_partitions: usize = kani::any();
+        kani::assume(n_partitions >= 1);
+        let ndv = any_prec();
+        let nulls = any_prec();
+        let mut cols = Vec::new();
+        if ncols == 1 {
+            let mut c = ColumnStatistics::new_unknown();
+            c.distinct_count = ndv.clone();
+            c.null_count = nulls.clone();
+            cols.push(c);
+        }
+        let stats = Statistics { num_rows: nr.clone(), total_byte_size: Precision::Absent, column_statistics: cols };
+        let res = stats.with_fetch(fetch, skip, n_partitions);
+        let out = match res { Ok(s) => s, Err(e) => { std::mem::forget(e); assert!(false, "C29.with_fetch.no_error_expected"); return; } };
+        let untouched = fetch.is_none() && skip == 0;
+        let fetch_val = fetch.unwrap_or(usize::MAX);
+        // ---- the property: an Exact row count is the number of rows LIMIT/OFFSET emits ----
+        if let Precision::Exact(v) = out.num_rows {
+            match nr {
+                Precision::Exact(n) => {
+                    if n_partitions == 1 {
+                        let remaining = n.saturating_sub(skip);
+                        let emitted = if remaining < fetch_val { remaining } else { fetch_val };
+                        assert!(v == emitted, "C29.with_fetch.exact_rows_equal_rows_emitted");
+                    } else {
+                        // per-partition statistics scaled to the global view must not have wrapped
+                        let per = {
+                            let remaining = n.saturating_sub(skip);
+                            if remaining < fetch_val { remaining } else { fetch_val }
+                        };
+                        if !(untouched || (n > skip && n <= fetch_val && skip == 0)) {
+                            assert!(v as u128 == per as u128 * n_partitions as u128, "C29.with_fetch.exact_scaled_rows_no_wrap");
+                        } else {
+                            assert!(v == n, "C29.with_fetch.identity_case_keeps_rows");
+                        }
+                    }
+                }
+                _ => assert!(false, "C29.with_fetch.exact_rows_only_from_exact_input"),
+            }
+        }
+        // ---- column statistics: when rows were cut, nothing stays Exact ----
+        let identity = untouched || match nr {
+            Precision::Exact(n) | Precision::Inexact(n) => n > skip && n <= fetch_val && skip == 0,
+            Precision::Absent => false,
+        };
+        if ncols == 1 {
+            assert!(out.column_statistics.len() == 1, "C29.with_fetch.column_count_kept");
+            let c = &out.column_statistics[0];
+            if identity {
+                assert!(c.distinct_count == ndv && c.null_count == nulls, "C29.with_fetch.identity_keeps_columns");
+            } else {
+                assert!(!matches!(c.distinct_count, Precision::Exact(_)), "C29.with_fetch.cut_distinct_not_exact");
+                assert!(!matches!(c.null_count, Precision::Exact(_)), "C29.with_fetch.cut_nulls_not_exact");
+                // NDV never exceeds the row estimate
+                if let (Some(d), Some(r)) = (c.distinct_count.get_value(), out.num_rows.get_value()) {
+                    assert!(*d <= *r, "C29.with_fetch.ndv_le_rows");
+                }
+            }
+        }
+        if !identity {
+            assert!(!matches!(out.total_byte_size, Precision::Exact(_)), "C29.with_fetch.cut_bytes_not_exact");
+        }
+        kani::cover!(matches!(out.num_rows, Precision::Exact(_)) && !identity);
+        kani::cover!(identity);
+        std::mem::forget(out);
+    }
+
+    #[kani::proof]
+    #[kani::unwind(3)]
+    #[kani::stub(std::fmt::format, stub_format)]
+    fn c29_with_fetch_rows() { check_with_fetch(0); }
+
+    #[kani::proof]
+    #[kani::unwind(3)]
+    #[kani::solver(kissat)]
+    #[kani::stub(std::fmt::format, stub_format)]
+    fn c29x_with_fetch_rows_kissat() { check_with_fetch(0); }
+    #[kani::proof]
+    #[kani::unwind(3)]
+    #[kani::solver(minisat)]
+    #[kani::stub(std::fmt::format, stub_format)]
+    fn c29x_with_fetch_rows_minisat() { check_with_fetch(0); }
+
+    #[kani::proof]
+    #[kani::unwind(3)]
+    #[kani::stub(std::fmt::format, stub_format)]
+    fn c29_with_fetch_one_column_bounded() { check_with_fetch(1); }
 }
